@@ -65,5 +65,65 @@ Already delivered (avoid):
         open(os.path.join(rd, "prompt-%s.txt" % pid), "w").write(t)
         print(pid, len(deliv), len(t))
 
+GROUPS = {
+    "A": ("the decoder", ["decode/decode.go", "decode/buffer.go", "decode/options.go"]),
+    "B": ("the encoder", ["encode/encode.go", "encode/buffer.go"]),
+    "C": ("the renderer and its gradient paint", ["render/render.go", "render/gradient.go"]),
+    "D": ("the root package (colours, viewBox helpers, logger, destination contract) and the bundled rasterizer wrapper", ["color.go", "ivg.go", "logger.go", "destination.go", "raster/vec/rasterizer.go", "raster/rasterizer.go", "raster/logger.go"]),
+    "E": ("the front ends: generate/ (Generator: gradient helpers, SetPathData, transforms) and mdicons/ (ParsePath, ParsePathData, ParseFile)", ["generate/generate.go", "mdicons/parsepath.go", "mdicons/parsepathdata.go", "mdicons/parsefile.go", "mdicons/types.go"]),
+}
+
+def by_package():
+    """One prompt per package with all twenty statements (changes that fall between the properties)."""
+    rd = os.path.abspath(sys.argv[1])
+    mx = 4
+    os.makedirs(os.path.join(rd, "out"), exist_ok=True)
+    props = [json.loads(l) for l in open(os.path.join(HERE, "properties.jsonl"))]
+    metas = [json.load(open(f)) for f in sorted(glob.glob(os.path.join(HERE, "seeded/*/meta.json")))]
+    for g, (what, files) in GROUPS.items():
+        wt = os.path.join(rd, "wt-" + g)
+        out = os.path.join(rd, "out", g)
+        os.makedirs(out, exist_ok=True)
+        if not os.path.isdir(wt):
+            subprocess.run(["git", "-C", "/repo", "worktree", "add", "--detach", wt, "HEAD"], check=True, capture_output=True)
+        deliv = [m for m in metas if any(f in files for f in ((m.get("confirmed", {}) or {}).get("files_changed") or m.get("files_changed") or []))]
+        t = """You are helping to evaluate a verification effort by playing the role of a developer who introduces realistic, subtle regressions into a Go library.
+
+The library is reactivego/ivg (encoder, decoder, disassembler and renderer for the IconVG FFV0 vector-icon format). You have your own scratch git worktree of it at %(wt)s (work ONLY there; do not touch /repo, and do not read or use anything under /verif - that directory is off limits). Read the library's source and spec (spec/iconvg-spec-v0.md) as needed.
+
+Environment: no network. Before every go command run: export GOFLAGS=-mod=mod GOPROXY=off GOSUMDB=off GOTOOLCHAIN=local   (the default `go` is 1.23). The test suite is run with: cd %(wt)s && go test -vet=off -count=1 ./...   (30 tests, all pass on the unchanged tree).
+
+Twenty semantic properties of the library are being verified (this is all you are told about what is being verified):
+
+""" % dict(wt=wt)
+        for p in props:
+            t += "Property %s: %s\n  Statement: %s\n  Quantified over: %s\n\n" % (p["id"], p["title"], p["statement"], p["quantifier"]["text"])
+        t += """
+Your area this time is %(what)s - files: %(files)s. Your job: produce up to %(mx)d different, independent changes to those files (each one a separate small patch against the unchanged tree), each of which
+  1. BREAKS at least one of the twenty properties for at least one input / call sequence / configuration / schedule inside that property's own quantifier (say which property in meta.json; choose the one it breaks most directly),
+  2. still compiles and still PASSES the whole existing test suite unchanged (do not edit, add or delete any existing test or testdata file),
+  3. looks like a plausible mistake or "optimisation"/refactoring a maintainer could make (one to ~20 changed lines; no obviously malicious code, no special-casing of magic constants that no real code would have),
+  4. is as HARD TO NOTICE as you can make it: it should need something specific to manifest (a particular multi-step history, an unusual-but-legal input, a boundary value, a rare combination of two features, a particular configuration or entry point, two cooperating sites that each look fine alone) and ideally fall BETWEEN the properties - a behaviour that a verifier who wrote one focused check per property might not exercise, although one of the statements above does cover it when read carefully. Spread your changes over different properties. Fewer is better than easy: do not deliver a change that ordinary use would expose at once.
+
+For each change number N in 1..%(mx)d deliver, under %(out)s/N/ :
+  - patch.diff : output of `git diff` in the worktree containing ONLY the library change (no test files). It must apply to the unchanged tree with `git apply`.
+  - seed_demo_test.go : a Go test file with a single test function named TestSeedDemo (package name matching the directory it is meant for, external _test package allowed) that uses only the library's public API (plus standard library / golang.org/x/image which is already a dependency) and FAILS with your change applied and PASSES on the unchanged tree. It demonstrates the violation of the property on a concrete input, deterministically.
+  - meta.json : {"property": "<Cxx: the property it breaks most directly>", "also_check": ["<other property ids that it arguably breaks too>"], "demo_dir": "<directory relative to the repo root into which seed_demo_test.go must be copied to run it, e.g. \\"decode\\" or \\".\\">", "summary": "<one sentence: what the change does>", "needs": "<what specific input/sequence/configuration is needed for the violation to manifest>", "files_changed": ["..."]}
+
+Procedure you must follow for each change: make the edit in the worktree; run the full test suite and confirm it passes; copy your seed_demo_test.go into demo_dir and run `go test -vet=off -count=1 -run TestSeedDemo ./<demo_dir>/` and confirm it FAILS; save `git diff -- . ':!*seed_demo_test.go'` as patch.diff; then `git checkout -- .` and remove the copied demo file, re-add only the demo file and confirm TestSeedDemo PASSES on the unchanged tree; remove the demo file again so the worktree is clean before the next change. If a candidate change makes an existing test fail, discard it and try another idea. Do not leave the worktree dirty at the end (git status must be clean, no untracked files). Do not spend more than about 30 minutes in total.
+
+IMPORTANT - novelty: earlier colleagues already delivered the changes listed below in these files. Do NOT repeat them or close variants of them. Look for DIFFERENT mechanisms and different code sites.
+Already delivered in your files (avoid):
+""" % dict(what=what, files=", ".join(files), mx=mx, out=out)
+        for m in deliv:
+            t += "- [%s] %s\n" % (m["property"], (m.get("summary", "") or "").strip()[:240])
+        t += "\nFinish with a short report listing, for each delivered change, the property it breaks, its one-line summary and what it needs to manifest. If you could only find fewer than %d qualifying changes, deliver those and say so.\n" % mx
+        open(os.path.join(rd, "prompt-%s.txt" % g), "w").write(t)
+        print(g, len(deliv), len(t))
+
 if __name__ == "__main__":
-    main()
+    if "--by-package" in sys.argv:
+        sys.argv.remove("--by-package")
+        by_package()
+    else:
+        main()
